@@ -31,6 +31,8 @@ type tierCfg struct {
 	TimeoutS        int            `json:"timeout_s"`
 	Solver          string         `json:"solver"`
 	Skip            bool           `json:"skip"`
+	OneShot         bool           `json:"oneshot"`
+	FallbackMs      int            `json:"fallback_ms"`
 }
 
 type harnessSpec struct {
@@ -225,6 +227,10 @@ func cmdRun(id string, args []string) int {
 		if tc.TimeoutS > 0 {
 			cfg.Deadline = time.Now().Add(time.Duration(tc.TimeoutS) * time.Second)
 		}
+		cfg.OneShot = tc.OneShot
+		if tc.FallbackMs > 0 {
+			cfg.FallbackMs = tc.FallbackMs
+		}
 		cfg.PermuteMaps = tc.PermuteMaps
 		cfg.Params = tc.Params
 		cfg.Verbose = *verbose
@@ -319,6 +325,9 @@ func cmdRun(id string, args []string) int {
 		if rep.PathLimit || rep.TimedOut {
 			fmt.Printf("INCONCLUSIVE property=%s harness=%s: exploration cut (path limit %v, deadline %v)\n", id, hr.Spec.Func, rep.PathLimit, rep.TimedOut)
 			inconclusive = true
+		}
+		if rep.OneShots > 0 || rep.SolverTimeouts > 0 {
+			fmt.Printf("note: %d queries decided by a non-incremental solver run (%d incremental timeouts)\n", rep.OneShots, rep.SolverTimeouts)
 		}
 		if rep.UnknownBranch > 0 {
 			fmt.Printf("note: %d branch feasibility queries returned unknown (both sides explored)\n", rep.UnknownBranch)
